@@ -172,15 +172,21 @@ Print Assumptions account_amount_called_twice_is_own.
         (model: partial_of / spacer_of over the TO_DISPLAY marks mark_accounts leaves) are such
         that a reader who keeps the last name seen at each indentation level and appends a
         line's partial name to the name one level up recovers, line by line, exactly the
-        accounts of the balance rows.  layout_ok (every displayed level is a printed line) is
-        computed by the driver on every generated case. ---- *)
+        accounts of the balance rows. ---- *)
 Theorem layout_reads_back : forall ord cp o ps rows,
   o_flat o = false ->
-  layout_ok ord cp o ps = Ok true ->
   bal_layout ord cp o ps = Ok rows ->
   read_tree [] (map (fun l => (l_spacer l, l_partial l)) rows) = map l_acct rows.
-Proof. exact layout_reads_back_gen. Qed.
+Proof. exact layout_reads_back_uncond. Qed.
 Print Assumptions layout_reads_back.
+
+(* the invariant of mark_accounts behind it: in tree form every displayed level (an ancestor
+   with more than one displayed child branch, or marked TO_DISPLAY) is itself a printed line
+   that passes the display predicate *)
+Theorem displayed_levels_are_printed : forall ord cp o ps,
+  o_flat o = false -> layout_ok ord cp o ps = Ok true.
+Proof. exact layout_ok_holds. Qed.
+Print Assumptions displayed_levels_are_printed.
 
 Theorem layout_flat_reads_back : forall ord cp o ps rows,
   o_flat o = true ->
